@@ -55,6 +55,12 @@ def run(ck, replay=None):
             raise common.Infra('Pipeline.tla violates %s in %s: the specification is wrong\n%s' % (r.violated, cfg, r.out[-3000:]))
         ck.add_tlc(r)
         mc[cfg] = [r.distinct, r.generated]
+    # the process life-cycle protocol itself (scheduler, process and waiter goroutines, rendezvous channels)
+    r = common.tlc('Lifecycle', 'MCLifecycle.cfg' if quick else 'MCLifecycleT.cfg', os.path.join(ck.scratch, 'mc-life'), timeout=3000)
+    if r.violated:
+        raise common.Infra('Lifecycle.tla violates %s: the specification is wrong\n%s' % (r.violated, r.out[-3000:]))
+    ck.add_tlc(r)
+    mc['Lifecycle'] = [r.distinct, r.generated]
     wd = os.path.join(ck.scratch, 'gen')
     r = common.tlc('PipelineGen', 'MCPipelineGen.cfg', wd, timeout=3000)
     if r.violated:
